@@ -90,9 +90,9 @@ Definition wlen (w : window) : Z := w_hi w - w_lo w.
 Definition transfer (pos req n : Z) : Z :=
   if pos <? 0 then 0 else Z.max 0 (Z.min req (n - pos)).
 
-(* a truncation warning is due when the range asked for, [pos, pos + req), is not inside [0, n] *)
-Definition warned (pos req n : Z) : bool :=
-  (pos + req >? n) || ((pos <? 0) && (req >? 0)).
+(* a truncation warning is due exactly when fewer bytes move than were asked for (so never for an
+   empty request, and never for "everything up to the end" unless the cursor is before position 0) *)
+Definition warned (pos req n : Z) : bool := transfer pos req n <? req.
 
 (* bytes [p, p+k) of the file; the file with bs stored at p (same length when p + |bs| <= length) *)
 Definition sub (d : list Z) (p k : Z) : list Z := firstn (Z.to_nat k) (skipn (Z.to_nat p) d).
